@@ -24,12 +24,16 @@ Definition is_provable (k : skind) : bool := match k with KindP => true | _ => f
 Definition nl : string := String (ascii_of_nat 10) "".
 Definition nonempty_str (s : string) : bool := match s with EmptyString => false | _ => true end.
 
-Fixpoint flat_mapi_from {A B} (f : nat -> A -> list B) (i : nat) (l : list A) : list B :=
-  match l with
-  | [] => []
-  | a :: l' => (f i a ++ flat_mapi_from f (S i) l')%list
-  end.
-Definition flat_mapi {A B} (f : nat -> A -> list B) (l : list A) : list B := flat_mapi_from f 0 l.
+Section FlatMapi.
+  Context {A B : Type}.
+  Variable f : nat -> A -> list B.
+  Fixpoint flat_mapi_from (i : nat) (l : list A) : list B :=
+    match l with
+    | [] => []
+    | a :: l' => (f i a ++ flat_mapi_from (S i) l')%list
+    end.
+  Definition flat_mapi (l : list A) : list B := flat_mapi_from 0 l.
+End FlatMapi.
 
 Inductive atom := ASp | ALit (s : string) | AVal (x : string).
 
